@@ -123,8 +123,13 @@ impl Op {
             // search for whitespace-delimited "inv" in order to avoid matching
             // tokens *containing* inv (INVariant, subINVolution, and a few other
             // pathological cases)
+            // `inv` is a modifier: it may be given anywhere in the invocation
+            // (prefix, infix, suffix, inv=true), so look it up in the tokenized form
             let def = &parameters.definition;
-            let inverted = def.contains(" inv ") || def.ends_with(" inv");
+            let inverted = def
+                .split_into_parameters()
+                .get("inv")
+                .is_some_and(|v| v.is_empty() || v.to_lowercase() == "true");
             let mut next_param = parameters.next(def);
             next_param.definition = macro_definition;
             return Op::op(next_param, ctx)?.handle_inversion(inverted);
